@@ -97,12 +97,13 @@ static i128 wrap(int t, uint64_t raw) {
     return v;
 }
 
-enum PRED { P_EQ, P_BOOLEQ, P_LOWBYTE, P_ZERO };
+enum PRED { P_EQ, P_BOOLEQ, P_LOWBYTE, P_ZERO, P_NONZERO, P_REL };
 static bool int_pred(int pred, i128 a, i128 b) {
     switch (pred) {
     case P_EQ: return a == b;
     case P_BOOLEQ: return (a != 0) == (b != 0);
     case P_LOWBYTE: return (((a % 256) + 256) % 256) == (((b % 256) + 256) % 256);
+    case P_NONZERO: return b != 0;
     default: return b == 0;
     }
 }
@@ -905,6 +906,645 @@ static void sec_bool_table(vf::Ctx& c) {
     c.nontrivial(name);
 }
 
+// ================================================================ macro hygiene: operands written as EXPRESSIONS
+// Every check macro is handed operands spelled as unparenthesised, comma-free expressions whose top-level operator binds
+// loosely (| ^ & ?: + - || && == <, pointer + offset). The property speaks about operand VALUES: the verdict must be the
+// predicate on the values of the operand expressions, however they are spelled. The value of each operand is obtained by
+// evaluating the same expression text outside any check macro (as a function argument); the oracles are those of the value sections.
+enum { HF_ID_PLAIN, HF_ID_OR, HF_ID_XOR, HF_ID_AND, HF_ID_COND, HF_ID_ADD, HF_ID_SUB, HF_ID_LOR, HF_ID_LAND, HF_ID_EQ, HF_ID_LT, HF_ID_PADD, HF_ID_N };
+static const char* const HF_TEXT[HF_ID_N] = { "x", "x | y", "x ^ y", "x & y", "s ? x : y", "x + y", "x - y", "x || y", "x && y", "x == y", "x < y", "p + o" };
+#define HF_PLAIN(p) p##x
+#define HF_OR(p)    p##x | p##y
+#define HF_XOR(p)   p##x ^ p##y
+#define HF_AND(p)   p##x & p##y
+#define HF_COND(p)  p##s ? p##x : p##y
+#define HF_ADD(p)   p##x + p##y
+#define HF_SUB(p)   p##x - p##y
+#define HF_LOR(p)   p##x || p##y
+#define HF_LAND(p)  p##x && p##y
+#define HF_EQ(p)    p##x == p##y
+#define HF_LT(p)    p##x < p##y
+#define HF_PADD(p)  p##x + p##o
+static bool hf_boolvalued(int f) { return f == HF_ID_LOR || f == HF_ID_LAND || f == HF_ID_EQ || f == HF_ID_LT; }
+
+// operand components handed to the bodies: [0] expected/first, [1] actual/second, [2] third operand (mask, length, tolerance)
+static i128 H_x[3], H_y[3]; static int H_s[3];
+static double HD_x[3], HD_y[3];
+static const char* HP_x[2]; static const char* HP_y[2]; static size_t HP_o[2];
+static void (*HFN_x[2])(); static void (*HFN_y[2])();
+static int h_case; static bool h_reached;
+// values of the operand expressions as evaluated outside the check macro
+static i128 h_val[3]; static double h_dval[3]; static const void* h_pval[2]; static void (*h_fval[2])();
+template <class V> static i128 toI(V v) { return (i128) v; }
+template <class V> static double toD(V v) { return (double) v; }
+static const void* toP(const void* p) { return p; }
+typedef void (*vfn_t)();
+static vfn_t toF(vfn_t f) { return f; }
+struct HForms { int f[3]; };
+
+// ---- form tables (one X-macro drives both the body and the table, so the case index cannot drift)
+#define H_PAIRS(X, U) \
+    X(OR, PLAIN, U) X(PLAIN, OR, U) X(XOR, PLAIN, U) X(PLAIN, XOR, U) X(AND, PLAIN, U) X(PLAIN, AND, U) \
+    X(COND, PLAIN, U) X(PLAIN, COND, U) X(ADD, PLAIN, U) X(PLAIN, ADD, U) X(LOR, PLAIN, U) X(PLAIN, LOR, U) \
+    X(LAND, PLAIN, U) X(PLAIN, LAND, U) X(EQ, PLAIN, U) X(PLAIN, EQ, U) X(LT, PLAIN, U) X(PLAIN, LT, U) \
+    X(OR, COND, U) X(XOR, OR, U) X(COND, AND, U)
+// compact list for the macros with a large expansion (CHECK_EQUAL, CHECK_COMPARE, ENUMS_EQUAL_*): every form once in each position
+#define H_CPAIRS(X, U) \
+    X(OR, PLAIN, U) X(PLAIN, OR, U) X(XOR, COND, U) X(COND, XOR, U) X(AND, PLAIN, U) X(PLAIN, AND, U) \
+    X(ADD, LOR, U) X(LOR, ADD, U) X(LAND, EQ, U) X(EQ, LAND, U) X(LT, PLAIN, U) X(PLAIN, LT, U)
+#define H_SINGLES(X, U) X(PLAIN, OR, U) X(PLAIN, XOR, U) X(PLAIN, AND, U) X(PLAIN, COND, U) X(PLAIN, ADD, U) X(PLAIN, LOR, U) X(PLAIN, LAND, U) X(PLAIN, EQ, U) X(PLAIN, LT, U)
+#define H_ITRIPLES(X, U) \
+    X(OR, PLAIN, PLAIN, U) X(PLAIN, OR, PLAIN, U) X(PLAIN, PLAIN, OR, U) \
+    X(XOR, PLAIN, PLAIN, U) X(PLAIN, XOR, PLAIN, U) X(PLAIN, PLAIN, XOR, U) \
+    X(AND, PLAIN, PLAIN, U) X(PLAIN, AND, PLAIN, U) X(PLAIN, PLAIN, AND, U) \
+    X(COND, PLAIN, PLAIN, U) X(PLAIN, COND, PLAIN, U) X(PLAIN, PLAIN, COND, U) \
+    X(ADD, PLAIN, PLAIN, U) X(PLAIN, ADD, PLAIN, U) X(PLAIN, PLAIN, ADD, U) \
+    X(LOR, PLAIN, PLAIN, U) X(PLAIN, LOR, PLAIN, U) X(PLAIN, PLAIN, LOR, U) \
+    X(LAND, PLAIN, PLAIN, U) X(PLAIN, LAND, PLAIN, U) X(PLAIN, PLAIN, LAND, U) \
+    X(EQ, PLAIN, PLAIN, U) X(PLAIN, EQ, PLAIN, U) X(PLAIN, PLAIN, EQ, U) \
+    X(LT, PLAIN, PLAIN, U) X(PLAIN, LT, PLAIN, U) X(PLAIN, PLAIN, LT, U) \
+    X(OR, XOR, AND, U) X(COND, ADD, OR, U) X(LOR, LT, COND, U) X(AND, COND, XOR, U) X(ADD, EQ, LAND, U)
+#define H_DTRIPLES(X, U) \
+    X(COND, PLAIN, PLAIN, U) X(PLAIN, COND, PLAIN, U) X(PLAIN, PLAIN, COND, U) \
+    X(ADD, PLAIN, PLAIN, U) X(PLAIN, ADD, PLAIN, U) X(PLAIN, PLAIN, ADD, U) \
+    X(SUB, PLAIN, PLAIN, U) X(PLAIN, SUB, PLAIN, U) X(PLAIN, PLAIN, SUB, U) \
+    X(LT, PLAIN, PLAIN, U) X(PLAIN, LT, PLAIN, U) X(PLAIN, PLAIN, LT, U) \
+    X(LOR, PLAIN, PLAIN, U) X(PLAIN, LOR, PLAIN, U) X(PLAIN, PLAIN, LOR, U) \
+    X(COND, ADD, SUB, U) X(ADD, SUB, COND, U) X(SUB, COND, ADD, U) X(LT, LOR, COND, U) X(LOR, LT, ADD, U)
+#define H_PTRIPLES(X, U) \
+    X(COND, PLAIN, PLAIN, U) X(PLAIN, COND, PLAIN, U) X(PADD, PLAIN, PLAIN, U) X(PLAIN, PADD, PLAIN, U) \
+    X(COND, PADD, PLAIN, U) X(PADD, COND, PLAIN, U) X(COND, COND, PLAIN, U) X(PADD, PADD, PLAIN, U) \
+    X(PLAIN, PLAIN, OR, U) X(PLAIN, PLAIN, XOR, U) X(PLAIN, PLAIN, AND, U) X(PLAIN, PLAIN, COND, U) X(PLAIN, PLAIN, ADD, U) X(PLAIN, PLAIN, LOR, U) X(PLAIN, PLAIN, LT, U) \
+    X(COND, PADD, OR, U) X(PADD, COND, COND, U) X(COND, COND, ADD, U) X(PADD, PADD, XOR, U)
+static const size_t NPTRIPLE_NOLEN = 8;   // the first 8 entries of H_PTRIPLES leave the length operand plain
+#define H_FPAIRS(X, U) X(COND, PLAIN, U) X(PLAIN, COND, U) X(COND, COND, U)
+
+#define H_TAB2(FE, FA, U) { { HF_ID_##FE, HF_ID_##FA, HF_ID_PLAIN } },
+#define H_TAB3(FE, FA, FM, U) { { HF_ID_##FE, HF_ID_##FA, HF_ID_##FM } },
+static const HForms HPAIR[] = { H_PAIRS(H_TAB2, _) };
+static const HForms HCPAIR[] = { H_CPAIRS(H_TAB2, _) };
+static const HForms HSINGLE[] = { H_SINGLES(H_TAB2, _) };
+static const HForms HITRIPLE[] = { H_ITRIPLES(H_TAB3, _) };
+static const HForms HDTRIPLE[] = { H_DTRIPLES(H_TAB3, _) };
+static const HForms HPTRIPLE[] = { H_PTRIPLES(H_TAB3, _) };
+static const HForms HFPAIR[] = { H_FPAIRS(H_TAB2, _) };
+#define HCOUNT(a) (sizeof(a) / sizeof((a)[0]))
+
+// ---- bodies (thousands of macro expansions: compiled without optimisation to keep the harness build short; sanitizers stay on)
+#define HBODY_ATTR __attribute__((optimize("O0")))
+#define H_RUN2(FE, FA, U) if (h_case == k_++) { h_val[0] = toI(HF_##FE(e_)); h_val[1] = toI(HF_##FA(a_)); h_reached = true; U(HF_##FE(e_), HF_##FA(a_)); DONE; return; }
+#define H_RUN3(FE, FA, FM, U) if (h_case == k_++) { h_val[0] = toI(HF_##FE(e_)); h_val[1] = toI(HF_##FA(a_)); h_val[2] = toI(HF_##FM(m_)); h_reached = true; U(HF_##FE(e_), HF_##FA(a_), HF_##FM(m_)); DONE; return; }
+#define H_ILOAD T e_x = (T) (C) H_x[0], e_y = (T) (C) H_y[0], a_x = (T) (C) H_x[1], a_y = (T) (C) H_y[1]; int e_s = H_s[0], a_s = H_s[1], k_ = 0; \
+    (void) e_x; (void) e_y; (void) a_x; (void) a_y; (void) e_s; (void) a_s;
+#define H_INT_BODY(fname, U) template <class T, class C = T> HBODY_ATTR static void fname() { H_ILOAD H_PAIRS(H_RUN2, U) }
+#define H_INTC_BODY(fname, U) template <class T, class C = T> HBODY_ATTR static void fname() { H_ILOAD H_CPAIRS(H_RUN2, U) }
+#define H_INT1_BODY(fname, U) template <class T, class C = T> HBODY_ATTR static void fname() { H_ILOAD H_SINGLES(H_RUN2, U) }
+#define H_BITS_BODY(fname, U) template <class T, class M> HBODY_ATTR static void fname() { typedef T C; H_ILOAD M m_x = (M) H_x[2], m_y = (M) H_y[2]; int m_s = H_s[2]; (void) m_x; (void) m_y; (void) m_s; H_ITRIPLES(H_RUN3, U) }
+
+#define U_CHECK_EQUAL(E, A) CHECK_EQUAL(E, A)
+#define U_CHECK_EQUAL_TEXT(E, A) CHECK_EQUAL_TEXT(E, A, "txt")
+#define U_CHECK_EQUAL_ZERO(E, A) CHECK_EQUAL_ZERO(A)
+#define U_CHECK_EQUAL_ZERO_TEXT(E, A) CHECK_EQUAL_ZERO_TEXT(A, "txt")
+#define U_LONGS(E, A) LONGS_EQUAL(E, A)
+#define U_LONGS_TEXT(E, A) LONGS_EQUAL_TEXT(E, A, "txt")
+#define U_ULONGS(E, A) UNSIGNED_LONGS_EQUAL(E, A)
+#define U_ULONGS_TEXT(E, A) UNSIGNED_LONGS_EQUAL_TEXT(E, A, "txt")
+#define U_LL(E, A) LONGLONGS_EQUAL(E, A)
+#define U_LL_TEXT(E, A) LONGLONGS_EQUAL_TEXT(E, A, "txt")
+#define U_ULL(E, A) UNSIGNED_LONGLONGS_EQUAL(E, A)
+#define U_ULL_TEXT(E, A) UNSIGNED_LONGLONGS_EQUAL_TEXT(E, A, "txt")
+#define U_BYTES(E, A) BYTES_EQUAL(E, A)
+#define U_BYTES_TEXT(E, A) BYTES_EQUAL_TEXT(E, A, "txt")
+#define U_SBYTES(E, A) SIGNED_BYTES_EQUAL(E, A)
+#define U_SBYTES_TEXT(E, A) SIGNED_BYTES_EQUAL_TEXT(E, A, "txt")
+#define U_ENUMS_INT(E, A) ENUMS_EQUAL_INT(E, A)
+#define U_ENUMS_INT_TEXT(E, A) ENUMS_EQUAL_INT_TEXT(E, A, "txt")
+#define U_ENUMS_TYPE(E, A) ENUMS_EQUAL_TYPE(C, E, A)
+#define U_ENUMS_TYPE_TEXT(E, A) ENUMS_EQUAL_TYPE_TEXT(C, E, A, "txt")
+#define U_C_BOOL(E, A) CHECK_EQUAL_C_BOOL(E, A)
+#define U_C_BOOL_TEXT(E, A) CHECK_EQUAL_C_BOOL_TEXT(E, A, "txt")
+#define U_C_INT(E, A) CHECK_EQUAL_C_INT(E, A)
+#define U_C_INT_TEXT(E, A) CHECK_EQUAL_C_INT_TEXT(E, A, "txt")
+#define U_C_UINT(E, A) CHECK_EQUAL_C_UINT(E, A)
+#define U_C_UINT_TEXT(E, A) CHECK_EQUAL_C_UINT_TEXT(E, A, "txt")
+#define U_C_LONG(E, A) CHECK_EQUAL_C_LONG(E, A)
+#define U_C_LONG_TEXT(E, A) CHECK_EQUAL_C_LONG_TEXT(E, A, "txt")
+#define U_C_ULONG(E, A) CHECK_EQUAL_C_ULONG(E, A)
+#define U_C_ULONG_TEXT(E, A) CHECK_EQUAL_C_ULONG_TEXT(E, A, "txt")
+#define U_C_LL(E, A) CHECK_EQUAL_C_LONGLONG(E, A)
+#define U_C_LL_TEXT(E, A) CHECK_EQUAL_C_LONGLONG_TEXT(E, A, "txt")
+#define U_C_ULL(E, A) CHECK_EQUAL_C_ULONGLONG(E, A)
+#define U_C_ULL_TEXT(E, A) CHECK_EQUAL_C_ULONGLONG_TEXT(E, A, "txt")
+#define U_C_CHAR(E, A) CHECK_EQUAL_C_CHAR(E, A)
+#define U_C_CHAR_TEXT(E, A) CHECK_EQUAL_C_CHAR_TEXT(E, A, "txt")
+#define U_C_UBYTE(E, A) CHECK_EQUAL_C_UBYTE(E, A)
+#define U_C_UBYTE_TEXT(E, A) CHECK_EQUAL_C_UBYTE_TEXT(E, A, "txt")
+#define U_C_SBYTE(E, A) CHECK_EQUAL_C_SBYTE(E, A)
+#define U_C_SBYTE_TEXT(E, A) CHECK_EQUAL_C_SBYTE_TEXT(E, A, "txt")
+#define U_CHECK(E, A) CHECK(A)
+#define U_CHECK_TEXT(E, A) CHECK_TEXT(A, "txt")
+#define U_CHECK_TRUE(E, A) CHECK_TRUE(A)
+#define U_CHECK_TRUE_TEXT(E, A) CHECK_TRUE_TEXT(A, "txt")
+#define U_CHECK_FALSE(E, A) CHECK_FALSE(A)
+#define U_CHECK_FALSE_TEXT(E, A) CHECK_FALSE_TEXT(A, "txt")
+#define U_CHECK_C(E, A) CHECK_C(A)
+#define U_CHECK_C_TEXT(E, A) CHECK_C_TEXT(A, "txt")
+#define U_CMP_EQ(E, A) CHECK_COMPARE(E, ==, A)
+#define U_CMP_NE(E, A) CHECK_COMPARE(E, !=, A)
+#define U_CMP_LT(E, A) CHECK_COMPARE(E, <, A)
+#define U_CMP_LE(E, A) CHECK_COMPARE(E, <=, A)
+#define U_CMP_GT(E, A) CHECK_COMPARE(E, >, A)
+#define U_CMP_GE(E, A) CHECK_COMPARE(E, >=, A)
+#define U_CMPT_EQ(E, A) CHECK_COMPARE_TEXT(E, ==, A, "txt")
+#define U_CMPT_NE(E, A) CHECK_COMPARE_TEXT(E, !=, A, "txt")
+#define U_CMPT_LT(E, A) CHECK_COMPARE_TEXT(E, <, A, "txt")
+#define U_CMPT_LE(E, A) CHECK_COMPARE_TEXT(E, <=, A, "txt")
+#define U_CMPT_GT(E, A) CHECK_COMPARE_TEXT(E, >, A, "txt")
+#define U_CMPT_GE(E, A) CHECK_COMPARE_TEXT(E, >=, A, "txt")
+#define U_BITS(E, A, M) BITS_EQUAL(E, A, M)
+#define U_BITS_TEXT(E, A, M) BITS_EQUAL_TEXT(E, A, M, "txt")
+#define U_C_BITS(E, A, M) CHECK_EQUAL_C_BITS(E, A, M)
+#define U_C_BITS_TEXT(E, A, M) CHECK_EQUAL_C_BITS_TEXT(E, A, M, "txt")
+
+H_INTC_BODY(hb_check_equal, U_CHECK_EQUAL) H_INTC_BODY(hb_check_equal_text, U_CHECK_EQUAL_TEXT)
+H_INT1_BODY(hb_check_equal_zero, U_CHECK_EQUAL_ZERO) H_INT1_BODY(hb_check_equal_zero_text, U_CHECK_EQUAL_ZERO_TEXT)
+H_INT_BODY(hb_longs, U_LONGS) H_INT_BODY(hb_longs_text, U_LONGS_TEXT) H_INT_BODY(hb_ulongs, U_ULONGS) H_INT_BODY(hb_ulongs_text, U_ULONGS_TEXT)
+H_INT_BODY(hb_ll, U_LL) H_INT_BODY(hb_ll_text, U_LL_TEXT) H_INT_BODY(hb_ull, U_ULL) H_INT_BODY(hb_ull_text, U_ULL_TEXT)
+H_INT_BODY(hb_bytes, U_BYTES) H_INT_BODY(hb_bytes_text, U_BYTES_TEXT) H_INT_BODY(hb_sbytes, U_SBYTES) H_INT_BODY(hb_sbytes_text, U_SBYTES_TEXT)
+H_INTC_BODY(hb_enums_int, U_ENUMS_INT) H_INTC_BODY(hb_enums_int_text, U_ENUMS_INT_TEXT) H_INTC_BODY(hb_enums_type, U_ENUMS_TYPE) H_INTC_BODY(hb_enums_type_text, U_ENUMS_TYPE_TEXT)
+H_INT_BODY(hb_c_bool, U_C_BOOL) H_INT_BODY(hb_c_bool_text, U_C_BOOL_TEXT) H_INT_BODY(hb_c_int, U_C_INT) H_INT_BODY(hb_c_int_text, U_C_INT_TEXT)
+H_INT_BODY(hb_c_uint, U_C_UINT) H_INT_BODY(hb_c_uint_text, U_C_UINT_TEXT) H_INT_BODY(hb_c_long, U_C_LONG) H_INT_BODY(hb_c_long_text, U_C_LONG_TEXT)
+H_INT_BODY(hb_c_ulong, U_C_ULONG) H_INT_BODY(hb_c_ulong_text, U_C_ULONG_TEXT) H_INT_BODY(hb_c_ll, U_C_LL) H_INT_BODY(hb_c_ll_text, U_C_LL_TEXT)
+H_INT_BODY(hb_c_ull, U_C_ULL) H_INT_BODY(hb_c_ull_text, U_C_ULL_TEXT) H_INT_BODY(hb_c_char, U_C_CHAR) H_INT_BODY(hb_c_char_text, U_C_CHAR_TEXT)
+H_INT_BODY(hb_c_ubyte, U_C_UBYTE) H_INT_BODY(hb_c_ubyte_text, U_C_UBYTE_TEXT) H_INT_BODY(hb_c_sbyte, U_C_SBYTE) H_INT_BODY(hb_c_sbyte_text, U_C_SBYTE_TEXT)
+H_INT1_BODY(hb_CHECK, U_CHECK) H_INT1_BODY(hb_CHECK_TEXT, U_CHECK_TEXT) H_INT1_BODY(hb_CHECK_TRUE, U_CHECK_TRUE) H_INT1_BODY(hb_CHECK_TRUE_TEXT, U_CHECK_TRUE_TEXT)
+H_INT1_BODY(hb_CHECK_FALSE, U_CHECK_FALSE) H_INT1_BODY(hb_CHECK_FALSE_TEXT, U_CHECK_FALSE_TEXT) H_INT1_BODY(hb_CHECK_C, U_CHECK_C) H_INT1_BODY(hb_CHECK_C_TEXT, U_CHECK_C_TEXT)
+H_INTC_BODY(hb_cmp_eq, U_CMP_EQ) H_INTC_BODY(hb_cmp_ne, U_CMP_NE) H_INTC_BODY(hb_cmp_lt, U_CMP_LT) H_INTC_BODY(hb_cmp_le, U_CMP_LE) H_INTC_BODY(hb_cmp_gt, U_CMP_GT) H_INTC_BODY(hb_cmp_ge, U_CMP_GE)
+ H_INTC_BODY(hb_cmpt_ne, U_CMPT_NE) H_INTC_BODY(hb_cmpt_le, U_CMPT_LE)
+H_BITS_BODY(hb_bits, U_BITS) H_BITS_BODY(hb_bits_text, U_BITS_TEXT) H_BITS_BODY(hb_c_bits, U_C_BITS) H_BITS_BODY(hb_c_bits_text, U_C_BITS_TEXT)
+
+// nops: operands that are expressions (1: only the second/actual one exists); op: relational operator of a CHECK_COMPARE, -1 otherwise
+struct HICheck { const char* name; int ty; int pred; int nops; int op; void (*body)(); bool compact; };   // compact: body built from H_CPAIRS
+static const HICheck HICHK[] = {
+    { "CHECK_EQUAL<int>", TY_INT, P_EQ, 2, -1, hb_check_equal<int>, true },
+    { "CHECK_EQUAL<unsigned int>", TY_UINT, P_EQ, 2, -1, hb_check_equal<unsigned int>, true },
+    { "CHECK_EQUAL<unsigned char>", TY_UCHAR, P_EQ, 2, -1, hb_check_equal<unsigned char>, true },
+    { "CHECK_EQUAL_TEXT<unsigned int>", TY_UINT, P_EQ, 2, -1, hb_check_equal_text<unsigned int>, true },
+    { "CHECK_EQUAL_ZERO<int>", TY_INT, P_ZERO, 1, -1, hb_check_equal_zero<int>, false },
+    { "CHECK_EQUAL_ZERO_TEXT<long>", TY_LONG, P_ZERO, 1, -1, hb_check_equal_zero_text<long>, false },
+    { "LONGS_EQUAL<int>", TY_INT, P_EQ, 2, -1, hb_longs<int>, false },
+    { "LONGS_EQUAL<unsigned int>", TY_UINT, P_EQ, 2, -1, hb_longs<unsigned int>, false },
+    { "LONGS_EQUAL_TEXT<unsigned int>", TY_UINT, P_EQ, 2, -1, hb_longs_text<unsigned int>, false },
+    { "UNSIGNED_LONGS_EQUAL<unsigned int>", TY_UINT, P_EQ, 2, -1, hb_ulongs<unsigned int>, false },
+    { "UNSIGNED_LONGS_EQUAL_TEXT<unsigned int>", TY_UINT, P_EQ, 2, -1, hb_ulongs_text<unsigned int>, false },
+    { "LONGLONGS_EQUAL<unsigned int>", TY_UINT, P_EQ, 2, -1, hb_ll<unsigned int>, false },
+    { "LONGLONGS_EQUAL_TEXT<unsigned int>", TY_UINT, P_EQ, 2, -1, hb_ll_text<unsigned int>, false },
+    { "UNSIGNED_LONGLONGS_EQUAL<unsigned int>", TY_UINT, P_EQ, 2, -1, hb_ull<unsigned int>, false },
+    { "UNSIGNED_LONGLONGS_EQUAL_TEXT<unsigned int>", TY_UINT, P_EQ, 2, -1, hb_ull_text<unsigned int>, false },
+    { "BYTES_EQUAL<int>", TY_INT, P_LOWBYTE, 2, -1, hb_bytes<int>, false },
+    { "BYTES_EQUAL<unsigned char>", TY_UCHAR, P_LOWBYTE, 2, -1, hb_bytes<unsigned char>, false },
+    { "BYTES_EQUAL<long long>", TY_LL, P_LOWBYTE, 2, -1, hb_bytes<long long>, false },
+    { "BYTES_EQUAL_TEXT<int>", TY_INT, P_LOWBYTE, 2, -1, hb_bytes_text<int>, false },
+    { "SIGNED_BYTES_EQUAL", TY_SCHAR, P_EQ, 2, -1, hb_sbytes<signed char>, false },
+    { "SIGNED_BYTES_EQUAL_TEXT", TY_SCHAR, P_EQ, 2, -1, hb_sbytes_text<signed char>, false },
+    { "ENUMS_EQUAL_INT", TY_INT, P_EQ, 2, -1, hb_enums_int<EInt, int>, true },
+    { "ENUMS_EQUAL_INT_TEXT", TY_INT, P_EQ, 2, -1, hb_enums_int_text<EInt, int>, true },
+    { "ENUMS_EQUAL_TYPE<unsigned int>", TY_UINT, P_EQ, 2, -1, hb_enums_type<EUInt, unsigned int>, true },
+    { "ENUMS_EQUAL_TYPE_TEXT<unsigned int>", TY_UINT, P_EQ, 2, -1, hb_enums_type_text<EUInt, unsigned int>, true },
+    { "CHECK_EQUAL_C_BOOL", TY_INT, P_BOOLEQ, 2, -1, hb_c_bool<int>, false },
+    { "CHECK_EQUAL_C_BOOL_TEXT", TY_INT, P_BOOLEQ, 2, -1, hb_c_bool_text<int>, false },
+    { "CHECK_EQUAL_C_INT", TY_INT, P_EQ, 2, -1, hb_c_int<int>, false },
+    { "CHECK_EQUAL_C_INT_TEXT", TY_INT, P_EQ, 2, -1, hb_c_int_text<int>, false },
+    { "CHECK_EQUAL_C_UINT", TY_UINT, P_EQ, 2, -1, hb_c_uint<unsigned int>, false },
+    { "CHECK_EQUAL_C_UINT_TEXT", TY_UINT, P_EQ, 2, -1, hb_c_uint_text<unsigned int>, false },
+    { "CHECK_EQUAL_C_LONG", TY_LONG, P_EQ, 2, -1, hb_c_long<long>, false },
+    { "CHECK_EQUAL_C_LONG_TEXT", TY_LONG, P_EQ, 2, -1, hb_c_long_text<long>, false },
+    { "CHECK_EQUAL_C_ULONG", TY_ULONG, P_EQ, 2, -1, hb_c_ulong<unsigned long>, false },
+    { "CHECK_EQUAL_C_ULONG_TEXT", TY_ULONG, P_EQ, 2, -1, hb_c_ulong_text<unsigned long>, false },
+    { "CHECK_EQUAL_C_LONGLONG", TY_LL, P_EQ, 2, -1, hb_c_ll<long long>, false },
+    { "CHECK_EQUAL_C_LONGLONG_TEXT", TY_LL, P_EQ, 2, -1, hb_c_ll_text<long long>, false },
+    { "CHECK_EQUAL_C_ULONGLONG", TY_ULL, P_EQ, 2, -1, hb_c_ull<unsigned long long>, false },
+    { "CHECK_EQUAL_C_ULONGLONG_TEXT", TY_ULL, P_EQ, 2, -1, hb_c_ull_text<unsigned long long>, false },
+    { "CHECK_EQUAL_C_CHAR", TY_CHAR, P_EQ, 2, -1, hb_c_char<char>, false },
+    { "CHECK_EQUAL_C_CHAR_TEXT", TY_CHAR, P_EQ, 2, -1, hb_c_char_text<char>, false },
+    { "CHECK_EQUAL_C_UBYTE", TY_UCHAR, P_EQ, 2, -1, hb_c_ubyte<unsigned char>, false },
+    { "CHECK_EQUAL_C_UBYTE_TEXT", TY_UCHAR, P_EQ, 2, -1, hb_c_ubyte_text<unsigned char>, false },
+    { "CHECK_EQUAL_C_SBYTE", TY_SCHAR, P_EQ, 2, -1, hb_c_sbyte<signed char>, false },
+    { "CHECK_EQUAL_C_SBYTE_TEXT", TY_SCHAR, P_EQ, 2, -1, hb_c_sbyte_text<signed char>, false },
+    { "CHECK", TY_INT, P_NONZERO, 1, -1, hb_CHECK<int>, false },
+    { "CHECK_TEXT", TY_INT, P_NONZERO, 1, -1, hb_CHECK_TEXT<int>, false },
+    { "CHECK_TRUE", TY_INT, P_NONZERO, 1, -1, hb_CHECK_TRUE<int>, false },
+    { "CHECK_TRUE_TEXT", TY_INT, P_NONZERO, 1, -1, hb_CHECK_TRUE_TEXT<int>, false },
+    { "CHECK_FALSE", TY_INT, P_ZERO, 1, -1, hb_CHECK_FALSE<int>, false },
+    { "CHECK_FALSE_TEXT", TY_INT, P_ZERO, 1, -1, hb_CHECK_FALSE_TEXT<int>, false },
+    { "CHECK_C", TY_INT, P_NONZERO, 1, -1, hb_CHECK_C<int>, false },
+    { "CHECK_C_TEXT", TY_INT, P_NONZERO, 1, -1, hb_CHECK_C_TEXT<int>, false },
+    { "CHECK<long>", TY_LONG, P_NONZERO, 1, -1, hb_CHECK<long>, false },
+    { "CHECK_FALSE<long>", TY_LONG, P_ZERO, 1, -1, hb_CHECK_FALSE<long>, false },
+    { "CHECK_COMPARE<int>(==)", TY_INT, P_REL, 2, OP_EQ, hb_cmp_eq<int>, true },
+    { "CHECK_COMPARE<int>(!=)", TY_INT, P_REL, 2, OP_NE, hb_cmp_ne<int>, true },
+    { "CHECK_COMPARE<int>(<)", TY_INT, P_REL, 2, OP_LT, hb_cmp_lt<int>, true },
+    { "CHECK_COMPARE<int>(<=)", TY_INT, P_REL, 2, OP_LE, hb_cmp_le<int>, true },
+    { "CHECK_COMPARE<int>(>)", TY_INT, P_REL, 2, OP_GT, hb_cmp_gt<int>, true },
+    { "CHECK_COMPARE<int>(>=)", TY_INT, P_REL, 2, OP_GE, hb_cmp_ge<int>, true },
+    { "CHECK_COMPARE<unsigned int>(==)", TY_UINT, P_REL, 2, OP_EQ, hb_cmp_eq<unsigned int>, true },
+    { "CHECK_COMPARE<unsigned int>(<)", TY_UINT, P_REL, 2, OP_LT, hb_cmp_lt<unsigned int>, true },
+    { "CHECK_COMPARE_TEXT<int>(!=)", TY_INT, P_REL, 2, OP_NE, hb_cmpt_ne<int>, true },
+    { "CHECK_COMPARE_TEXT<int>(<=)", TY_INT, P_REL, 2, OP_LE, hb_cmpt_le<int>, true },
+};
+static const size_t NHICHK = sizeof(HICHK) / sizeof(HICHK[0]);
+
+// ---- generators: components (x, y, s) of an operand expression of form `form` whose value is exactly v (in type ty)
+static uint64_t h_mask(vf::Rng& r) {
+    switch (r.below(8)) {
+    case 0: return 0xffull; case 1: return ~0xffull; case 2: return 1ull << r.below(64); case 3: return ~(1ull << r.below(64));
+    case 4: return 0xffffull; case 5: return r.chance(50) ? 0 : ~0ull; default: return r.next();
+    }
+}
+static i128 h_nonzero(vf::Rng& r, int ty) {   // non-zero value of the type, preferably with a zero low byte / a single high bit
+    i128 v;
+    switch (r.below(3)) { case 0: v = wrap(ty, 1ull << r.below((uint64_t) tbits(ty))); break; case 1: v = wrap(ty, r.next() & ~0xffull); break; default: v = wrap(ty, rand_raw(r)); break; }
+    return v == 0 ? 1 : v;
+}
+static bool h_wraps(int ty) { return ty == TY_UINT || ty == TY_ULONG || ty == TY_ULL; }   // arithmetic of the expression is modulo 2^n in the type itself
+static void h_split(vf::Rng& r, int ty, int form, i128 v, i128& x, i128& y, int& s) {
+    uint64_t raw = (uint64_t) v;
+    static const int SEL[] = { 1, 2, 0x100, -1, 0x10000 };
+    s = r.chance(50) ? SEL[r.below(5)] : 0; x = v; y = wrap(ty, rand_raw(r));
+    switch (form) {
+    case HF_ID_OR: { uint64_t m = h_mask(r), extra = r.chance(25) ? (raw & r.next()) : 0; x = wrap(ty, (raw & ~m) | extra); y = wrap(ty, raw & m); break; }
+    case HF_ID_XOR: { uint64_t k = r.chance(40) ? (r.next() & ~0xffull) : r.chance(30) ? (1ull << r.below(64)) : r.next(); x = wrap(ty, raw ^ k); y = wrap(ty, k); break; }
+    case HF_ID_AND: { uint64_t r1 = r.next() & ~raw, r2 = r.next() & ~raw & ~r1; if (r.chance(30)) r2 = ~raw & ~r1; x = wrap(ty, raw | r1); y = wrap(ty, raw | r2); break; }
+    case HF_ID_COND: { i128 other = r.chance(50) ? wrap(ty, raw ^ (r.next() & ~0xffull)) : wrap(ty, rand_raw(r)); if (s) { x = v; y = other; } else { x = other; y = v; } break; }
+    case HF_ID_ADD:
+        if (h_wraps(ty)) { uint64_t k = r.chance(50) ? r.next() : (uint64_t) r.range(0, 600); x = wrap(ty, raw - k); y = wrap(ty, k); }
+        else {
+            i128 cand[] = { (i128) r.range(-600, 600), wrap(ty, rand_raw(r)), (i128) 256, (i128) -1, (i128) 0 };
+            x = v; y = 0;
+            for (i128 k : cand) if (k >= tmin(ty) && k <= tmax(ty) && v - k >= tmin(ty) && v - k <= tmax(ty)) { x = v - k; y = k; break; }
+        }
+        break;
+    case HF_ID_LOR: if (v != 0) { int w = (int) r.below(3); x = w == 1 ? 0 : h_nonzero(r, ty); y = w == 0 ? 0 : h_nonzero(r, ty); } else { x = 0; y = 0; } break;
+    case HF_ID_LAND: if (v != 0) { x = h_nonzero(r, ty); y = h_nonzero(r, ty); } else { int w = (int) r.below(3); x = w == 1 ? h_nonzero(r, ty) : 0; y = w == 0 ? h_nonzero(r, ty) : 0; } break;
+    case HF_ID_EQ: x = wrap(ty, rand_raw(r)); y = v != 0 ? x : wrap(ty, (uint64_t) x ^ (1ull << r.below((uint64_t) tbits(ty)))); break;
+    case HF_ID_LT: {
+        i128 p = wrap(ty, rand_raw(r)), q = wrap(ty, rand_raw(r));
+        if (p == q) { if (q < tmax(ty)) q = q + 1; else p = p - 1; }
+        i128 lo = p < q ? p : q, hi = p < q ? q : p;
+        if (v != 0) { x = lo; y = hi; } else if (r.chance(30)) { x = hi; y = hi; } else { x = hi; y = lo; }
+        break; }
+    default: break;
+    }
+}
+static std::string h_form_json(int form, i128 x, i128 y, int s, i128 v) {
+    return vf::J().k("expr", HF_TEXT[form]).k("x", s128(x)).k("y", s128(y)).k("s", s).k("value", s128(v)).str();
+}
+// after the body ran: were the operand expressions evaluated, and to the values the generator aimed at?
+static bool h_selfcheck_int(vf::Ctx& c, const i128* want, int n) {
+    if (!h_reached) { c.violation("harness-error:hygiene-case-not-reached", "form table and body out of step"); return false; }
+    for (int i = 0; i < n; i++) if (h_val[i] != want[i]) { c.count("hygiene_selfcheck_mismatch"); return false; }
+    return true;
+}
+static void h_count_forms(vf::Ctx& c, const HForms& f, int first, int n) {
+    c.count("hygiene_cases");
+    static const char* const POS[] = { "expected", "actual", "third" };
+    for (int i = first; i < n; i++) if (f.f[i] != HF_ID_PLAIN) c.count(std::string("hygiene_operand:") + POS[i] + ": " + HF_TEXT[f.f[i]]);
+}
+static std::string h_extra(const HForms& f, int first, int n) {
+    std::string s = "operand expressions:";
+    for (int i = first; i < n; i++) { s += i == first ? " [" : ", ["; s += HF_TEXT[f.f[i]]; s += "]"; }
+    return s;
+}
+
+static void sec_hyg_int(vf::Ctx& c) {
+    vf::Rng& r = c.rng;
+    const HICheck& k = HICHK[r.below(NHICHK)];
+    int hc = (int) r.below(k.nops == 1 ? HCOUNT(HSINGLE) : k.compact ? HCOUNT(HCPAIR) : HCOUNT(HPAIR));
+    HForms f = k.nops == 1 ? HSINGLE[hc] : k.compact ? HCPAIR[hc] : HPAIR[hc];
+    int ty = k.ty;
+    uint64_t ra = rand_raw(r), rb;
+    switch (r.below(10)) {
+    case 0: case 1: case 2: case 3: rb = ra; break;
+    case 4: case 5: rb = ra + ((uint64_t) r.range(1, 3) << (8 * r.range(1, 7))); break;     // same low byte(s), different above
+    case 6: rb = ra ^ (1ull << r.below(64)); break;
+    case 7: rb = ra + (uint64_t) (int64_t) r.range(-2, 2); break;
+    default: rb = rand_raw(r); break;
+    }
+    i128 a = wrap(ty, ra), b = wrap(ty, rb);
+    bool be = hf_boolvalued(f.f[0]), ba = hf_boolvalued(f.f[1]);
+    if (be) a = (i128) r.below(2);
+    if (ba) b = (i128) r.below(2);
+    if ((be || ba) && r.chance(50)) { if (be) b = a; else a = b; }
+    if (k.pred == P_BOOLEQ && r.chance(30)) { if (r.chance(50)) a = 0; if (r.chance(50)) b = 0; }
+    if (k.nops == 1) { a = 0; if (!ba && r.chance(40)) b = 0; }
+    i128 x[2], y[2]; int s[2];
+    h_split(r, ty, f.f[0], a, x[0], y[0], s[0]);
+    h_split(r, ty, f.f[1], b, x[1], y[1], s[1]);
+    std::string name = k.name;
+    c.begin([=] { vf::J j; j.k("check", name).k("type", TY_NAME[ty]); if (k.nops == 2) j.raw("expected", h_form_json(f.f[0], x[0], y[0], s[0], a)); j.raw("actual", h_form_json(f.f[1], x[1], y[1], s[1], b)); return j.str(); });
+    for (int i = 0; i < 2; i++) { H_x[i] = x[i]; H_y[i] = y[i]; H_s[i] = s[i]; h_val[i] = 0; }
+    h_case = hc; h_reached = false;
+    Obs o = run_check(k.body);
+    i128 want[2] = { a, b };
+    if (!h_selfcheck_int(c, want, 2)) return;
+    h_count_forms(c, f, k.nops == 2 ? 0 : 1, 2);
+    bool rel = k.pred == P_REL;
+    bool p = rel ? relop(k.op, a < b ? -1 : a > b ? 1 : 0) : int_pred(k.pred, a, b);
+    c.count(p ? "hygiene_predicate_true" : "hygiene_predicate_false");
+    judge(c, name, "expression-operand", p ? EXP_PASS : EXP_FAIL, o, rel, (h_extra(f, k.nops == 2 ? 0 : 1, 2) + " values: " + int_class(a, b)).c_str());
+    if (int_boundary(ty, a, b)) c.nontrivial(name + ":" + std::to_string(hc) + ":" + s128(a) + ":" + s128(b));
+}
+
+// ---- masked bits with expression operands (expected, actual, mask)
+struct HBCheck { const char* name; int ty; int mty; void (*body)(); };
+static const HBCheck HBCHK[] = {
+    { "BITS_EQUAL<unsigned int>", TY_UINT, TY_ULONG, hb_bits<unsigned int, unsigned long> }, { "BITS_EQUAL<int>", TY_INT, TY_ULONG, hb_bits<int, unsigned long> },
+    { "BITS_EQUAL<unsigned char>", TY_UCHAR, TY_ULONG, hb_bits<unsigned char, unsigned long> }, { "BITS_EQUAL<unsigned long>", TY_ULONG, TY_ULONG, hb_bits<unsigned long, unsigned long> },
+    { "BITS_EQUAL_TEXT<unsigned int>", TY_UINT, TY_ULONG, hb_bits_text<unsigned int, unsigned long> },
+    { "CHECK_EQUAL_C_BITS<unsigned int>", TY_UINT, TY_UINT, hb_c_bits<unsigned int, unsigned int> }, { "CHECK_EQUAL_C_BITS<int>", TY_INT, TY_UINT, hb_c_bits<int, unsigned int> },
+    { "CHECK_EQUAL_C_BITS<unsigned char>", TY_UCHAR, TY_UINT, hb_c_bits<unsigned char, unsigned int> }, { "CHECK_EQUAL_C_BITS_TEXT<unsigned int>", TY_UINT, TY_UINT, hb_c_bits_text<unsigned int, unsigned int> },
+};
+static void sec_hyg_bits(vf::Ctx& c) {
+    vf::Rng& r = c.rng;
+    const HBCheck& k = HBCHK[r.below(HCOUNT(HBCHK))];
+    int hc = (int) r.below(HCOUNT(HITRIPLE));
+    HForms f = HITRIPLE[hc];
+    int w = tbits(k.ty), fb = (int) r.below((uint64_t) w);
+    uint64_t ra = r.next(), rb, rm;
+    switch (r.below(4)) { case 0: rb = ra; break; case 1: rb = ra ^ (1ull << fb); break; case 2: rb = ra ^ (1ull << fb) ^ (1ull << r.below((uint64_t) w)); break; default: rb = r.next(); break; }
+    switch (r.below(7)) {
+    case 0: rm = 1ull << fb; break; case 1: case 2: rm = ~(1ull << fb); break; case 3: rm = r.next() & r.next(); break;
+    case 4: rm = (w >= 64) ? ~0ull : ((1ull << w) - 1); break; case 5: rm = r.next(); break; default: rm = r.chance(50) ? 0 : ~0ull; break;
+    }
+    i128 v[3] = { wrap(k.ty, ra), wrap(k.ty, rb), wrap(k.mty, rm) };
+    for (int i = 0; i < 3; i++) if (hf_boolvalued(f.f[i])) v[i] = (i128) r.below(2);
+    if (hf_boolvalued(f.f[0]) != hf_boolvalued(f.f[1]) && r.chance(50)) { if (hf_boolvalued(f.f[0])) v[1] = v[0]; else v[0] = v[1]; }
+    i128 x[3], y[3]; int s[3];
+    for (int i = 0; i < 3; i++) h_split(r, i == 2 ? k.mty : k.ty, f.f[i], v[i], x[i], y[i], s[i]);
+    std::string name = k.name;
+    c.begin([=] { return vf::J().k("check", name).k("type", TY_NAME[k.ty]).raw("expected", h_form_json(f.f[0], x[0], y[0], s[0], v[0])).raw("actual", h_form_json(f.f[1], x[1], y[1], s[1], v[1]))
+                         .raw("mask", h_form_json(f.f[2], x[2], y[2], s[2], v[2])).str(); });
+    for (int i = 0; i < 3; i++) { H_x[i] = x[i]; H_y[i] = y[i]; H_s[i] = s[i]; h_val[i] = 0; }
+    h_case = hc; h_reached = false;
+    Obs o = run_check(k.body);
+    if (!h_selfcheck_int(c, v, 3)) return;
+    h_count_forms(c, f, 0, 3);
+    i128 diff = (v[0] & v[2]) ^ (v[1] & v[2]);                      // mathematical AND on the sign-extended values, mask is non-negative
+    bool p = diff == 0;
+    c.count(p ? "hygiene_predicate_true" : "hygiene_predicate_false");
+    std::string cls = v[0] == v[1] ? "equal-operands" : p ? "differences-masked-out" : "difference-in-mask";
+    if (v[2] == 0) cls = "zero-mask";
+    judge(c, name, "expression-operand", p ? EXP_PASS : EXP_FAIL, o, false, (h_extra(f, 0, 3) + " values: " + cls).c_str());
+    if (v[2] == 0 || (v[0] != v[1] && p)) c.nontrivial(name + ":" + std::to_string(hc) + ":" + s128(v[0]) + ":" + s128(v[1]) + ":" + s128(v[2]));
+}
+
+// ---- doubles with expression operands (expected, actual, tolerance)
+#define H_DRUN3(FE, FA, FT, U) if (h_case == k_++) { h_dval[0] = toD(HF_##FE(e_)); h_dval[1] = toD(HF_##FA(a_)); h_dval[2] = toD(HF_##FT(t_)); h_reached = true; U(HF_##FE(e_), HF_##FA(a_), HF_##FT(t_)); DONE; return; }
+#define H_DBL_BODY(fname, U) HBODY_ATTR static void fname() { double e_x = HD_x[0], e_y = HD_y[0], a_x = HD_x[1], a_y = HD_y[1], t_x = HD_x[2], t_y = HD_y[2]; int e_s = H_s[0], a_s = H_s[1], t_s = H_s[2], k_ = 0; \
+    (void) e_x; (void) e_y; (void) a_x; (void) a_y; (void) t_x; (void) t_y; (void) e_s; (void) a_s; (void) t_s; H_DTRIPLES(H_DRUN3, U) }
+#define UD_DOUBLES(E, A, T) DOUBLES_EQUAL(E, A, T)
+#define UD_DOUBLES_TEXT(E, A, T) DOUBLES_EQUAL_TEXT(E, A, T, "txt")
+#define UD_C_REAL(E, A, T) CHECK_EQUAL_C_REAL(E, A, T)
+#define UD_C_REAL_TEXT(E, A, T) CHECK_EQUAL_C_REAL_TEXT(E, A, T, "txt")
+#define UD_CHECK_EQUAL(E, A, T) CHECK_EQUAL(E, A)
+#define UD_CMP_LT(E, A, T) CHECK_COMPARE(E, <, A)
+#define UD_CMP_GE(E, A, T) CHECK_COMPARE(E, >=, A)
+#define UD_CMP_EQ(E, A, T) CHECK_COMPARE(E, ==, A)
+H_DBL_BODY(hd_doubles, UD_DOUBLES) H_DBL_BODY(hd_doubles_text, UD_DOUBLES_TEXT) H_DBL_BODY(hd_c_real, UD_C_REAL) H_DBL_BODY(hd_c_real_text, UD_C_REAL_TEXT)
+H_DBL_BODY(hd_check_equal, UD_CHECK_EQUAL) H_DBL_BODY(hd_cmp_lt, UD_CMP_LT)
+struct HDCheck { const char* name; int kind; int op; void (*body)(); };   // kind 0: tolerance check, 1: exact (CHECK_EQUAL), 3: relational
+static const HDCheck HDCHK[] = {
+    { "DOUBLES_EQUAL", 0, -1, hd_doubles }, { "DOUBLES_EQUAL_TEXT", 0, -1, hd_doubles_text }, { "CHECK_EQUAL_C_REAL", 0, -1, hd_c_real }, { "CHECK_EQUAL_C_REAL_TEXT", 0, -1, hd_c_real_text },
+    { "CHECK_EQUAL<double>", 1, -1, hd_check_equal }, { "CHECK_COMPARE<double>(<)", 3, OP_LT, hd_cmp_lt },
+};
+static double h_dyadic(vf::Rng& r) { return (double) r.range(-4000, 4000) / 8.0; }
+static void h_dsplit(vf::Rng& r, int form, double v, double& x, double& y, int& s) {
+    s = r.chance(50) ? (int) r.range(1, 3) : 0; x = v; y = h_dyadic(r);
+    bool tame = std::isfinite(v) && fabs(v) < 1e9;
+    switch (form) {
+    case HF_ID_COND: { double other = r.chance(20) ? DV[r.below(NDV)] : h_dyadic(r); if (s) { x = v; y = other; } else { x = other; y = v; } break; }
+    case HF_ID_ADD: if (tame) { y = h_dyadic(r); x = v - y; } else { x = v; y = std::isfinite(v) ? 0.0 : 1.0; } break;
+    case HF_ID_SUB: if (tame) { y = h_dyadic(r); x = v + y; } else { x = v; y = std::isfinite(v) ? 0.0 : 1.0; } break;
+    case HF_ID_LT: { double p = h_dyadic(r), q = p + (double) r.range(1, 64) / 8.0; if (v != 0) { x = p; y = q; } else if (r.chance(30)) { x = q; y = q; } else { x = q; y = p; } break; }
+    case HF_ID_LOR: if (v != 0) { int w = (int) r.below(3); x = w == 1 ? 0.0 : 0.25 + fabs(h_dyadic(r)); y = w == 0 ? 0.0 : -0.125; } else { x = 0.0; y = r.chance(50) ? -0.0 : 0.0; } break;
+    default: break;
+    }
+}
+static std::string h_dform_json(int form, double x, double y, int s) { return vf::J().k("expr", HF_TEXT[form]).k("x", dstr(x)).k("y", dstr(y)).k("s", s).str(); }
+static void sec_hyg_doubles(vf::Ctx& c) {
+    vf::Rng& r = c.rng;
+    const HDCheck& k = HDCHK[r.below(HCOUNT(HDCHK))];
+    int hc;
+    do hc = (int) r.below(HCOUNT(HDTRIPLE)); while (k.kind != 0 && HDTRIPLE[hc].f[0] == HF_ID_PLAIN && HDTRIPLE[hc].f[1] == HF_ID_PLAIN);
+    HForms f = HDTRIPLE[hc];
+    double a = r.chance(25) ? DV[r.below(NDV)] : h_dyadic(r), b, tol;
+    tol = r.chance(12) ? TOL[r.below(NTOL)] : r.chance(15) ? 0.0 : (double) r.range(0, 160) / 8.0;
+    if (hf_boolvalued(f.f[2])) tol = (double) r.below(2);
+    if (hf_boolvalued(f.f[0])) a = (double) r.below(2);
+    switch (r.below(7)) {
+    case 0: case 1: b = a; break; case 2: b = a + tol; break; case 3: b = a - tol; break; case 4: b = a + tol + 0.125; break; case 5: b = a - tol / 2; break; default: b = h_dyadic(r); break;
+    }
+    if (hf_boolvalued(f.f[1])) { b = (double) r.below(2); if (r.chance(50) && (a == 0 || a == 1)) b = a; }
+    double v[3] = { a, b, tol }, x[3], y[3]; int s[3];
+    for (int i = 0; i < 3; i++) h_dsplit(r, f.f[i], v[i], x[i], y[i], s[i]);
+    std::string name = k.name;
+    c.begin([=] { vf::J j; j.k("check", name).raw("expected", h_dform_json(f.f[0], x[0], y[0], s[0])).raw("actual", h_dform_json(f.f[1], x[1], y[1], s[1]));
+                  if (k.kind == 0) j.raw("tolerance", h_dform_json(f.f[2], x[2], y[2], s[2])); return j.str(); });
+    for (int i = 0; i < 3; i++) { HD_x[i] = x[i]; HD_y[i] = y[i]; H_s[i] = s[i]; h_dval[i] = 0; }
+    h_case = hc; h_reached = false;
+    Obs o = run_check(k.body);
+    if (!h_reached) { c.violation("harness-error:hygiene-case-not-reached", "form table and body out of step"); return; }
+    // the oracle works on the values the operand expressions have when evaluated outside the macro
+    double va = h_dval[0], vb = h_dval[1], vt = h_dval[2];
+    for (int i = 0; i < 3; i++) if (!(h_dval[i] == v[i]) && !(std::isnan(h_dval[i]) && std::isnan(v[i]))) c.count("hygiene_double_value_differs_from_target");   // rounding of x + y: informational
+    h_count_forms(c, f, 0, k.kind == 0 ? 3 : 2);
+    std::string cls; int exp; bool rel = k.kind == 3;
+    if (k.kind == 1) { bool eq = !std::isnan(va) && !std::isnan(vb) && va == vb; exp = eq ? EXP_PASS : EXP_FAIL; cls = (std::isnan(va) || std::isnan(vb)) ? "nan-operand" : eq ? "same-value" : "different"; }
+    else if (rel) { int cmp = (std::isnan(va) || std::isnan(vb)) ? 2 : va < vb ? -1 : va > vb ? 1 : 0; exp = relop(k.op, cmp) ? EXP_PASS : EXP_FAIL; cls = cmp == 2 ? "unordered" : cmp == 0 ? "equal" : "ordered"; }
+    else exp = doubles_oracle(va, vb, vt, cls);
+    if (exp == EXP_UNJUDGED) c.count("doubles_unjudged:" + cls); else c.count(exp == EXP_PASS ? "hygiene_predicate_true" : "hygiene_predicate_false");
+    judge(c, name, "expression-operand", exp, o, rel, (h_extra(f, 0, k.kind == 0 ? 3 : 2) + " values: " + cls).c_str());
+    bool nt = std::isinf(va) || std::isinf(vb) || std::isnan(va) || std::isnan(vb) || (va == vb && std::signbit(va) != std::signbit(vb));
+    if (!nt && k.kind == 0 && va != vb && vt > 0 && !std::isinf(vt)) { double d = fabs(va - vb); nt = d <= 2 * vt && d >= vt / 2; }
+    if (!nt && k.kind == 3) nt = va == vb;
+    if (nt) c.nontrivial(name + ":" + std::to_string(hc) + ":" + dstr(va) + ":" + dstr(vb) + ":" + (k.kind == 0 ? dstr(vt) : ""));
+}
+
+// ---- strings, memory blocks and pointers with expression operands (pointer ?: / pointer + offset; length expressions)
+#define H_PRUN3(FE, FA, FN, U) if (h_case == k_++) { h_pval[0] = toP(HF_##FE(e_)); h_pval[1] = toP(HF_##FA(a_)); h_val[2] = toI(HF_##FN(n_)); h_reached = true; U(HF_##FE(e_), HF_##FA(a_), HF_##FN(n_)); DONE; return; }
+#define H_PTR_BODY(fname, PT, U) HBODY_ATTR static void fname() { typedef PT pt_t; pt_t e_x = (pt_t) HP_x[0], e_y = (pt_t) HP_y[0], a_x = (pt_t) HP_x[1], a_y = (pt_t) HP_y[1]; size_t e_o = HP_o[0], a_o = HP_o[1]; \
+    size_t n_x = (size_t) H_x[2], n_y = (size_t) H_y[2]; int e_s = H_s[0], a_s = H_s[1], n_s = H_s[2], k_ = 0; \
+    (void) e_x; (void) e_y; (void) a_x; (void) a_y; (void) e_o; (void) a_o; (void) n_x; (void) n_y; (void) e_s; (void) a_s; (void) n_s; H_PTRIPLES(H_PRUN3, U) }
+#define UP_STRCMP(E, A, N) STRCMP_EQUAL(E, A)
+#define UP_STRCMP_TEXT(E, A, N) STRCMP_EQUAL_TEXT(E, A, "txt")
+#define UP_C_STRING(E, A, N) CHECK_EQUAL_C_STRING(E, A)
+#define UP_C_STRING_TEXT(E, A, N) CHECK_EQUAL_C_STRING_TEXT(E, A, "txt")
+#define UP_NOCASE(E, A, N) STRCMP_NOCASE_EQUAL(E, A)
+#define UP_NOCASE_TEXT(E, A, N) STRCMP_NOCASE_EQUAL_TEXT(E, A, "txt")
+#define UP_CONTAINS(E, A, N) STRCMP_CONTAINS(E, A)
+#define UP_CONTAINS_TEXT(E, A, N) STRCMP_CONTAINS_TEXT(E, A, "txt")
+#define UP_NOCASE_CONTAINS(E, A, N) STRCMP_NOCASE_CONTAINS(E, A)
+#define UP_NOCASE_CONTAINS_TEXT(E, A, N) STRCMP_NOCASE_CONTAINS_TEXT(E, A, "txt")
+#define UP_STRNCMP(E, A, N) STRNCMP_EQUAL(E, A, N)
+#define UP_STRNCMP_TEXT(E, A, N) STRNCMP_EQUAL_TEXT(E, A, N, "txt")
+#define UP_MEMCMP(E, A, N) MEMCMP_EQUAL(E, A, N)
+#define UP_MEMCMP_TEXT(E, A, N) MEMCMP_EQUAL_TEXT(E, A, N, "txt")
+#define UP_C_MEMCMP(E, A, N) CHECK_EQUAL_C_MEMCMP(E, A, N)
+#define UP_C_MEMCMP_TEXT(E, A, N) CHECK_EQUAL_C_MEMCMP_TEXT(E, A, N, "txt")
+#define UP_POINTERS(E, A, N) POINTERS_EQUAL(E, A)
+#define UP_POINTERS_TEXT(E, A, N) POINTERS_EQUAL_TEXT(E, A, "txt")
+#define UP_C_POINTER(E, A, N) CHECK_EQUAL_C_POINTER(E, A)
+#define UP_C_POINTER_TEXT(E, A, N) CHECK_EQUAL_C_POINTER_TEXT(E, A, "txt")
+#define UP_CHECK_EQUAL(E, A, N) CHECK_EQUAL(E, A)
+H_PTR_BODY(hp_strcmp, const char*, UP_STRCMP) H_PTR_BODY(hp_strcmp_text, const char*, UP_STRCMP_TEXT) H_PTR_BODY(hp_c_string, const char*, UP_C_STRING) H_PTR_BODY(hp_c_string_text, const char*, UP_C_STRING_TEXT)
+H_PTR_BODY(hp_nocase, const char*, UP_NOCASE) H_PTR_BODY(hp_nocase_text, const char*, UP_NOCASE_TEXT) H_PTR_BODY(hp_contains, const char*, UP_CONTAINS) H_PTR_BODY(hp_contains_text, const char*, UP_CONTAINS_TEXT)
+H_PTR_BODY(hp_nocase_contains, const char*, UP_NOCASE_CONTAINS) H_PTR_BODY(hp_nocase_contains_text, const char*, UP_NOCASE_CONTAINS_TEXT)
+H_PTR_BODY(hp_strncmp, const char*, UP_STRNCMP) H_PTR_BODY(hp_strncmp_text, const char*, UP_STRNCMP_TEXT)
+H_PTR_BODY(hp_memcmp, const unsigned char*, UP_MEMCMP) H_PTR_BODY(hp_memcmp_text, const unsigned char*, UP_MEMCMP_TEXT) H_PTR_BODY(hp_c_memcmp, const unsigned char*, UP_C_MEMCMP) H_PTR_BODY(hp_c_memcmp_text, const unsigned char*, UP_C_MEMCMP_TEXT)
+H_PTR_BODY(hp_pointers, const long*, UP_POINTERS) H_PTR_BODY(hp_pointers_text, const long*, UP_POINTERS_TEXT) H_PTR_BODY(hp_c_pointer, const long*, UP_C_POINTER) H_PTR_BODY(hp_c_pointer_text, const long*, UP_C_POINTER_TEXT)
+H_PTR_BODY(hp_check_equal_ptr, const long*, UP_CHECK_EQUAL)
+
+#define H_FRUN2(FE, FA, U) if (h_case == k_++) { h_fval[0] = toF(HF_##FE(e_)); h_fval[1] = toF(HF_##FA(a_)); h_reached = true; U(HF_##FE(e_), HF_##FA(a_)); DONE; return; }
+#define H_FN_BODY(fname, U) HBODY_ATTR static void fname() { vfn_t e_x = HFN_x[0], e_y = HFN_y[0], a_x = HFN_x[1], a_y = HFN_y[1]; int e_s = H_s[0], a_s = H_s[1], k_ = 0; (void) e_x; (void) e_y; (void) a_x; (void) a_y; (void) e_s; (void) a_s; H_FPAIRS(H_FRUN2, U) }
+#define UF_FPTRS(E, A) FUNCTIONPOINTERS_EQUAL(E, A)
+#define UF_FPTRS_TEXT(E, A) FUNCTIONPOINTERS_EQUAL_TEXT(E, A, "txt")
+H_FN_BODY(hf_fptrs, UF_FPTRS) H_FN_BODY(hf_fptrs_text, UF_FPTRS_TEXT) H_FN_BODY(hf_check_equal_fptr, U_CHECK_EQUAL)
+
+enum { HPK_STR, HPK_MEM, HPK_PTR, HPK_FN };
+struct HPCheck { const char* name; int family; int skind; bool haslen; void (*body)(); };
+static const HPCheck HPCHK[] = {
+    { "STRCMP_EQUAL", HPK_STR, SK_EQ, false, hp_strcmp }, { "STRCMP_EQUAL_TEXT", HPK_STR, SK_EQ, false, hp_strcmp_text }, { "CHECK_EQUAL_C_STRING", HPK_STR, SK_EQ, false, hp_c_string }, { "CHECK_EQUAL_C_STRING_TEXT", HPK_STR, SK_EQ, false, hp_c_string_text },
+    { "STRCMP_NOCASE_EQUAL", HPK_STR, SK_NOCASE, false, hp_nocase }, { "STRCMP_NOCASE_EQUAL_TEXT", HPK_STR, SK_NOCASE, false, hp_nocase_text },
+    { "STRCMP_CONTAINS", HPK_STR, SK_CONTAINS, false, hp_contains }, { "STRCMP_CONTAINS_TEXT", HPK_STR, SK_CONTAINS, false, hp_contains_text },
+    { "STRCMP_NOCASE_CONTAINS", HPK_STR, SK_NOCASE_CONTAINS, false, hp_nocase_contains }, { "STRCMP_NOCASE_CONTAINS_TEXT", HPK_STR, SK_NOCASE_CONTAINS, false, hp_nocase_contains_text },
+    { "STRNCMP_EQUAL", HPK_STR, SK_NEQ, true, hp_strncmp }, { "STRNCMP_EQUAL_TEXT", HPK_STR, SK_NEQ, true, hp_strncmp_text },
+    { "MEMCMP_EQUAL", HPK_MEM, 0, true, hp_memcmp }, { "MEMCMP_EQUAL_TEXT", HPK_MEM, 0, true, hp_memcmp_text }, { "CHECK_EQUAL_C_MEMCMP", HPK_MEM, 0, true, hp_c_memcmp }, { "CHECK_EQUAL_C_MEMCMP_TEXT", HPK_MEM, 0, true, hp_c_memcmp_text },
+    { "POINTERS_EQUAL", HPK_PTR, 0, false, hp_pointers }, { "POINTERS_EQUAL_TEXT", HPK_PTR, 0, false, hp_pointers_text }, { "CHECK_EQUAL_C_POINTER", HPK_PTR, 0, false, hp_c_pointer }, { "CHECK_EQUAL_C_POINTER_TEXT", HPK_PTR, 0, false, hp_c_pointer_text },
+    { "CHECK_EQUAL<const long*>", HPK_PTR, 0, false, hp_check_equal_ptr },
+    { "FUNCTIONPOINTERS_EQUAL", HPK_FN, 0, false, hf_fptrs }, { "FUNCTIONPOINTERS_EQUAL_TEXT", HPK_FN, 0, false, hf_fptrs_text }, { "CHECK_EQUAL<void(*)()>", HPK_FN, 0, false, hf_check_equal_fptr },
+};
+static long g_lbuf[16], g_lbuf2[16];
+// exact-size heap copy of `prefix + payload` (+ terminator for strings): reads outside the operand are ASan reports
+static char* h_block(std::vector<void*>& owned, const std::string& prefix, const std::string& payload, bool terminated) {
+    size_t n = prefix.size() + payload.size() + (terminated ? 1 : 0);
+    char* p = (char*) malloc(n ? n : 1);
+    if (!prefix.empty()) memcpy(p, prefix.data(), prefix.size());
+    if (!payload.empty()) memcpy(p + prefix.size(), payload.data(), payload.size());
+    if (terminated) p[n - 1] = 0;
+    owned.push_back(p);
+    return p;
+}
+static std::string h_pform_json(int form, bool isnull, const std::string& shown, size_t off, int s) {
+    vf::J j; j.k("expr", HF_TEXT[form]); if (isnull) j.raw("value", "null"); else j.k("value", shown); j.k("o", (unsigned long) off).k("s", s); return j.str();
+}
+static void sec_hyg_pointers(vf::Ctx& c) {
+    vf::Rng& r = c.rng;
+    const HPCheck& k = HPCHK[r.below(HCOUNT(HPCHK))];
+    std::string name = k.name;
+    if (k.family == HPK_FN) {
+        int hc = (int) r.below(HCOUNT(HFPAIR)); HForms f = HFPAIR[hc];
+        static const vfn_t FT[] = { nullptr, fn1, fn2 };
+        vfn_t v[2]; v[0] = FT[r.below(3)]; v[1] = r.chance(50) ? v[0] : FT[r.below(3)];
+        int s[2];
+        for (int i = 0; i < 2; i++) { s[i] = r.chance(50) ? 1 + (int) r.below(2) * 0xff : 0; vfn_t other = FT[r.below(3)]; HFN_x[i] = (f.f[i] == HF_ID_PLAIN || s[i]) ? v[i] : other; HFN_y[i] = (f.f[i] == HF_ID_PLAIN || s[i]) ? other : v[i]; H_s[i] = s[i]; }
+        int vi0 = v[0] == fn1 ? 1 : v[0] == fn2 ? 2 : 0, vi1 = v[1] == fn1 ? 1 : v[1] == fn2 ? 2 : 0;
+        c.begin([=] { return vf::J().k("check", name).k("expected_expr", HF_TEXT[f.f[0]]).k("actual_expr", HF_TEXT[f.f[1]]).k("expected_fn", vi0).k("actual_fn", vi1).k("es", s[0]).k("as", s[1]).str(); });
+        h_case = hc; h_reached = false; h_fval[0] = h_fval[1] = nullptr;
+        Obs o = run_check(k.body);
+        HFN_x[0] = HFN_x[1] = HFN_y[0] = HFN_y[1] = nullptr;
+        if (!h_reached) { c.violation("harness-error:hygiene-case-not-reached", "form table and body out of step"); return; }
+        if (h_fval[0] != v[0] || h_fval[1] != v[1]) { c.count("hygiene_selfcheck_mismatch"); return; }
+        h_count_forms(c, f, 0, 2);
+        bool p = v[0] == v[1];
+        c.count(p ? "hygiene_predicate_true" : "hygiene_predicate_false");
+        judge(c, name, "expression-operand", p ? EXP_PASS : EXP_FAIL, o, false, (h_extra(f, 0, 2) + " values: " + (p ? (v[0] ? "same" : "both-null") : (!v[0] || !v[1]) ? "null-vs-nonnull" : "different")).c_str());
+        if (!v[0] || !v[1]) c.nontrivial(name + ":" + std::to_string(hc) + ":" + std::to_string(vi0) + ":" + std::to_string(vi1));
+        return;
+    }
+    int hc = (int) r.below(k.haslen ? HCOUNT(HPTRIPLE) : NPTRIPLE_NOLEN);
+    HForms f = HPTRIPLE[hc];
+    std::vector<void*> owned;
+    bool nbool = k.haslen && hf_boolvalued(f.f[2]);   // a length written as a boolean-valued expression is 0 or 1
+    bool isnull[2] = { false, false }; std::string val[2]; size_t n = 0;
+    const char* target[2] = { nullptr, nullptr };       // the pointer value each operand expression is meant to have
+    if (k.family == HPK_STR) {
+        std::string x = rand_str(r, 7), y;
+        switch (r.below(7)) {
+        case 0: case 1: y = x; break;
+        case 2: y = x; for (char& ch : y) if (r.chance(50)) { if (ch >= 'a' && ch <= 'z') ch -= 32; else if (ch >= 'A' && ch <= 'Z') ch += 32; } break;
+        case 3: y = x.substr(0, r.below(x.size() + 1)); break;
+        case 4: y = rand_str(r, 3) + x + rand_str(r, 3); break;
+        case 5: y = x; if (!y.empty()) { size_t p = r.below(y.size()); y[p] = (char) (y[p] ^ 0x01); if (!y[p]) y[p] = 'q'; } break;
+        default: y = rand_str(r, 7); break;
+        }
+        size_t common = 0; while (common < x.size() && common < y.size() && x[common] == y[common]) common++;
+        switch (r.below(5)) { case 0: n = common; break; case 1: n = common + 1; break; case 2: n = SIZE_MAX - r.below(2); break; case 3: n = std::max(x.size(), y.size()) + r.below(3); break; default: n = r.below(10); break; }
+        if (nbool) n = (size_t) r.below(2);
+        if (r.chance(30)) std::swap(x, y);
+        val[0] = x; val[1] = y; isnull[0] = r.chance(5); isnull[1] = r.chance(5);
+    } else if (k.family == HPK_MEM) {
+        n = nbool ? (size_t) r.below(2) : r.chance(12) ? 0 : r.chance(20) ? 1 : (size_t) r.range(2, 24);
+        std::string eb(n, '\0'); for (char& ch : eb) ch = (char) (r.chance(70) ? r.below(3) : r.below(256));
+        std::string ab = eb;
+        if (n && r.chance(50)) { size_t p = r.chance(30) ? 0 : r.chance(40) ? n - 1 : r.below(n); ab[p] = (char) (ab[p] ^ (1 << r.below(8))); }
+        val[0] = eb; val[1] = ab; isnull[0] = r.chance(5); isnull[1] = r.chance(5);
+    } else {
+        int i0 = (int) r.below(18), i1 = r.chance(50) ? i0 : (int) r.below(18);     // 0: NULL, 1..8: &g_lbuf[i], 9..17: &g_lbuf2[i-9]
+        int idx[2] = { i0, i1 };
+        for (int i = 0; i < 2; i++) { isnull[i] = idx[i] == 0; target[i] = idx[i] == 0 ? nullptr : idx[i] <= 8 ? (const char*) &g_lbuf[idx[i]] : (const char*) &g_lbuf2[idx[i] - 9]; val[i] = std::to_string(idx[i]); }
+    }
+    i128 nx, ny; int ns;
+    h_split(r, TY_ULONG, k.haslen ? f.f[2] : HF_ID_PLAIN, (i128) n, nx, ny, ns);
+    int s[2]; size_t off[2] = { 0, 0 };
+    for (int i = 0; i < 2; i++) {
+        int form = f.f[i];
+        s[i] = r.chance(50) ? 1 + (int) r.below(2) * 0xff : 0;
+        if (form == HF_ID_PADD && isnull[i]) { isnull[i] = false; if (k.family == HPK_PTR) { target[i] = (const char*) &g_lbuf[4]; val[i] = "4"; } else if (k.family == HPK_MEM) val[i].assign(n, 'p'); else val[i] = ""; }
+        const char* other; const char* base;
+        if (k.family == HPK_PTR) {
+            other = r.chance(25) ? nullptr : (const char*) &g_lbuf2[r.below(9)];
+            base = target[i];
+            if (form == HF_ID_PADD) { long have = target[i] >= (const char*) g_lbuf2 && target[i] < (const char*) (g_lbuf2 + 16) ? (const long*) target[i] - g_lbuf2 : (const long*) target[i] - g_lbuf; off[i] = (size_t) r.below((uint64_t) have + 1); base = (const char*) ((const long*) target[i] - off[i]); }
+        } else {
+            bool str = k.family == HPK_STR;
+            std::string prefix = form == HF_ID_PADD ? (str ? rand_str(r, 3) : std::string(r.below(4), '\x07')) : std::string();
+            off[i] = prefix.size();
+            base = isnull[i] ? nullptr : h_block(owned, prefix, val[i], str);
+            target[i] = isnull[i] ? nullptr : base + off[i];
+            std::string ov = str ? rand_str(r, 5) : std::string(n, (char) r.below(256));
+            other = r.chance(20) ? nullptr : h_block(owned, "", ov, str);
+        }
+        bool first = form != HF_ID_COND || s[i];
+        HP_x[i] = first ? base : other; HP_y[i] = first ? other : base; HP_o[i] = off[i]; H_s[i] = s[i];
+    }
+    H_x[2] = nx; H_y[2] = ny; H_s[2] = ns;
+    bool n0 = isnull[0], n1 = isnull[1]; std::string v0 = val[0], v1 = val[1]; size_t o0 = off[0], o1 = off[1]; int s0 = s[0], s1 = s[1]; bool mem = k.family == HPK_MEM;
+    c.begin([=] { vf::J j; j.k("check", name).raw("expected", h_pform_json(f.f[0], n0, mem ? vf::hexbytes(v0.data(), v0.size()) : v0, o0, s0)).raw("actual", h_pform_json(f.f[1], n1, mem ? vf::hexbytes(v1.data(), v1.size()) : v1, o1, s1));
+                  if (k.haslen) j.raw("length", h_form_json(f.f[2], nx, ny, ns, (i128) n)); return j.str(); });
+    h_case = hc; h_reached = false; h_pval[0] = h_pval[1] = nullptr; h_val[2] = 0;
+    Obs o = run_check(k.body);
+    HP_x[0] = HP_x[1] = HP_y[0] = HP_y[1] = nullptr;
+    bool ok = true;
+    if (!h_reached) { c.violation("harness-error:hygiene-case-not-reached", "form table and body out of step"); ok = false; }
+    else if (h_pval[0] != (const void*) target[0] || h_pval[1] != (const void*) target[1] || (k.haslen && h_val[2] != (i128) n)) { c.count("hygiene_selfcheck_mismatch"); ok = false; }
+    if (ok) {
+        h_count_forms(c, f, 0, k.haslen ? 3 : 2);
+        int exp; std::string cls;
+        if (k.family == HPK_STR) { StrExp x = string_expect(k.skind, target[0], target[1], n); exp = x.exp; cls = x.cls; }
+        else if (k.family == HPK_MEM) {
+            if (n == 0) { exp = EXP_PASS; cls = (n0 || n1) ? "length-0:with-null" : "length-0"; }
+            else if (n0 && n1) { exp = EXP_PASS; cls = "both-null"; }
+            else if (n0 || n1) { exp = EXP_FAIL; cls = n0 ? "null-expected" : "null-actual"; }
+            else { bool p = memcmp(target[0], target[1], n) == 0; exp = p ? EXP_PASS : EXP_FAIL; cls = p ? "equal" : "different"; }
+        } else { bool p = target[0] == target[1]; exp = p ? EXP_PASS : EXP_FAIL; cls = p ? (target[0] ? "same" : "both-null") : (!target[0] || !target[1]) ? "null-vs-nonnull" : "different"; }
+        if (exp == EXP_UNJUDGED) c.count("strings_unjudged:hygiene:" + cls); else c.count(exp == EXP_PASS ? "hygiene_predicate_true" : "hygiene_predicate_false");
+        judge(c, name, "expression-operand", exp, o, false, (h_extra(f, 0, k.haslen ? 3 : 2) + " values: " + cls).c_str());
+        if (n0 || n1 || (k.family != HPK_PTR && (v0.empty() || v1.empty() || exp == EXP_PASS)))
+            c.nontrivial(name + "|" + std::to_string(hc) + "|" + (n0 ? "<null>" : v0) + "|" + (n1 ? "<null>" : v1) + "|" + (k.haslen ? std::to_string(n) : ""));
+    }
+    for (void* p : owned) free(p);
+}
+
 int main(int argc, char** argv) {
     init_lattice(); init_ilat(); init_ptrs(); init_clat(); init_cmp();
     uint64_t ptr_total = NPCHK * PV.size() * PV.size() + NFCHK * FV.size() * FV.size();
@@ -924,6 +1564,10 @@ int main(int argc, char** argv) {
         { "memcmp_random", 5000, 150000, sec_mem_random, false },
         { "bits_random", 10000, 300000, sec_bits_random, false },
         { "compare_random", 5000, 150000, sec_compare_random, false },
+        { "hygiene_int", 60000, 900000, sec_hyg_int, false },
+        { "hygiene_bits", 10000, 150000, sec_hyg_bits, false },
+        { "hygiene_doubles", 12000, 180000, sec_hyg_doubles, false },
+        { "hygiene_pointers", 24000, 360000, sec_hyg_pointers, false },
     };
     return vf::harness_main(argc, argv, S, nullptr);
 }
